@@ -112,8 +112,10 @@ struct Trace {
   uint64_t perms = 0;          // model hash work
 };
 // sk, C, pt: ios bytes each. Returns the signature bytes. C is taken as given (not recomputed).
+// `extra`: bytes the WITH_EXTRA_RANDOMNESS configuration draws from the random source and absorbs into the ZKB++ seed
+// derivation after the block size (empty = the default, deterministic scheme)
 bytes sign(const Params& p, const bytes& sk, const bytes& C, const bytes& pt, const bytes& msg,
-           Trace* tr = nullptr, const Challenge* forced = nullptr);
+           Trace* tr = nullptr, const Challenge* forced = nullptr, const bytes* extra = nullptr);
 
 // ---------------------------------------------------------------- M5 sizes
 size_t zkb_sig_size(const Params& p, const std::vector<uint8_t>& e);
